@@ -3,29 +3,60 @@
 package generator
 
 import (
+	"encoding/json"
+	"errors"
+	"os"
+	"path/filepath"
+
 	"github.com/go-openapi/analysis"
 	"github.com/go-openapi/spec"
 )
 
-// appGenerator for a spec, built the way newAppGenerator does but without the loader / file system
+// appGenerator for a spec, built by the real newAppGenerator. Symbolically the loader, the template
+// loader and the option check are stubbed: validateAndFlattenSpec answers with the document itself
+// (the specs built by the harnesses are flat, local and need no preprocessing - natively the real
+// load + minimal flatten runs on a temporary file and the native validation of every path checks
+// that this stub is faithful). Everything newAppGenerator / analyzeSpec do after loading is executed.
 func vAppGenerator(sw *spec.Swagger) *appGenerator {
-	doc := vDocument(sw)
-	analyzed := analysis.New(sw)
 	opts := vGenOpts()
 	opts.IncludeHandler, opts.IncludeParameters, opts.IncludeResponses, opts.IncludeURLBuilder = true, true, true, true
 	opts.IncludeSupport = true
 	opts.APIPackage, opts.ServerPackage, opts.ClientPackage, opts.ModelPackage = "operations", "restapi", "client", "models"
 	opts.Name = "app"
 	opts.DefaultScheme, opts.DefaultProduces, opts.DefaultConsumes = "http", "application/json", "application/json"
-	models := map[string]spec.Schema{}
-	for k, v := range sw.Definitions {
-		models[k] = v
+	if vSymbolic() {
+		vStubReturn("(*github.com/go-swagger/go-swagger/generator.GenOpts).CheckOpts", nil)
+		vStubReturn("(*github.com/go-swagger/go-swagger/generator.GenOpts).setTemplates", nil)
+		vStubReturn("(*github.com/go-swagger/go-swagger/generator.GenOpts).validateAndFlattenSpec", vDocument(sw), nil)
+	} else {
+		dir, err := os.MkdirTemp("", "verifspec")
+		if err != nil {
+			panic(err)
+		}
+		defer os.RemoveAll(dir)
+		b, err := json.Marshal(sw)
+		if err != nil {
+			panic(err)
+		}
+		opts.Spec = filepath.Join(dir, "swagger.json")
+		if err := os.WriteFile(opts.Spec, b, 0o600); err != nil {
+			panic(err)
+		}
+		opts.FlattenOpts = &analysis.FlattenOpts{Minimal: true}
+		opts.templates = templates
 	}
-	return &appGenerator{
-		Name: "app", Receiver: "o", SpecDoc: doc, Analyzed: analyzed, Models: models,
-		Operations: gatherOperations(analyzed, nil), Target: opts.Target,
-		Package: "operations", APIPackage: "operations", ModelsPackage: "models", ServerPackage: "restapi", ClientPackage: "client",
-		OperationsPackage: "restapi/operations", Principal: "", DefaultScheme: "http", DefaultProduces: "application/json", DefaultConsumes: "application/json",
-		GenOpts: opts,
+	ag, err := newAppGenerator("app", nil, nil, opts)
+	vAssert(err == nil, "newAppGenerator failed")
+	if err != nil {
+		return nil
 	}
+	return ag
+}
+
+func vPlanApp(sw *spec.Swagger) (GenApp, error) {
+	ag := vAppGenerator(sw)
+	if ag == nil {
+		return GenApp{}, errors.New("no app generator")
+	}
+	return ag.makeCodegenApp()
 }
